@@ -182,7 +182,7 @@ pub mod c10 {
     template_blobs!(t_template_size59, 1, [59, 0, 0], 59, 80);
     template_blobs!(t_template_size60, 1, [60, 0, 0], 60, 80);
     // size-int Byte -> Word at payload + 2 = 256
-    template_blobs!(t_template_size253, 1, [253, 0, 0], 253, 280);
+    template_blobs!(q_template_size253, 1, [253, 0, 0], 253, 280);
     template_blobs!(q_template_size254, 1, [254, 0, 0], 254, 280);
     template_blobs!(t_template_size255, 2, [200, 55, 0], 255, 280);
 
